@@ -21,6 +21,14 @@ theorem extracted_guards :
     attestChecksContiguity = true ∧ tallyCalled = true ∧ tallyRequiresNotObserved = true ∧ tallyRequiresNextNonce = true ∧
     fallbackLastObservedMinusOne = true ∧ claimRequiresOnline = true ∧ 0 < maxKeepEventSize := by decide
 
+/-- what `TryAttestation` does once the bar is reached, and what the handler does with a deferred claim: the last observed
+nonce is set unconditionally (not only when the handler succeeds), the attestation is stored as observed, the handler runs
+through `processAttestation`, the vote loop is left, and send-to-fx / bridge-call / bridge-call-result claims are only
+parked at observation time (their effects run in `ExecuteClaim` alone) -/
+theorem extracted_observation_shape :
+    observeSetsLastObserved = true ∧ observeMarksObserved = true ∧ observeRunsHandler = true ∧ observeBreaksLoop = true ∧
+    deferredClaimsOnlyParked = true := by decide
+
 /-! ## 1. the last observed nonce advances by exactly one; no gaps -/
 
 /-- one step moves `lastObserved` by 0 or by exactly 1 — for every state and every operation -/
@@ -67,6 +75,20 @@ theorem observedLog_contiguous (p : Params) (ops : List Op) :
 /-- an event nonce is applied at most once (over all competing claims for it) -/
 theorem observed_nonce_applied_once (p : Params) (ops : List Op) : ((reach p ops).observedLog.map Prod.fst).Nodup := by
   rw [observedLog_contiguous]; exact List.nodup_range'
+
+/-- what has taken effect stays in effect: the observation log of any history is a prefix of the log of every extension
+of that history (an applied event nonce is never re-applied, re-ordered or replaced by a competing claim later) -/
+theorem observedLog_only_grows (p : Params) (ops more : List Op) :
+    (reach p ops).observedLog <+: (reach p (ops ++ more)).observedLog := by
+  obtain ⟨⟨l, h⟩, _⟩ := logs_run (reach p ops) more
+  exact ⟨l, by simp only [reach, run_append]; exact h.symm⟩
+
+/-- the same for deferred executions: from one operation to the next the execution log only grows (roll-backs of failing
+or refunded nested calls stay inside the operation that made them) -/
+theorem executedLog_only_grows (p : Params) (ops more : List Op) :
+    (reach p ops).executedLog <+: (reach p (ops ++ more)).executedLog := by
+  obtain ⟨_, ⟨l, h⟩⟩ := logs_run (reach p ops) more
+  exact ⟨l, by simp only [reach, run_append]; exact h.symm⟩
 
 /-! ## 2. at most one observed attestation per nonce -/
 
